@@ -132,6 +132,23 @@ CLAIMED = {
          'is reported unless tabled with a reason (and the reason is re-checked by a field-use side condition).'),
    note='Undecided: equality of outcomes. Argument shapes are shallow (variable, field path or producing callee); differences nested deeper inside an argument expression are not seen. Trusted base: ' + TRUSTED,
    design='5/C40'),
+ 'C29': dict(
+   technique='def-use sanitiser dominance for filesystem sinks + full path enumeration of resolve_within_root with guard literals',
+   text=('Decides that every filesystem sink in the resource/archive code whose path joins a variable component takes it from resolve_within_root / sanitize_archive_path / uri_to_path, and that resolve_within_root returns Ok only after '
+         'the non-empty, no-backslash, not-absolute, lexical-containment tests and - whenever the target canonicalises - the component-wise canonical containment test; exists() probes only resolved paths.'),
+   note='Undecided: filesystem state at the time of the call; symlink containment of writes (ResourceStore::add, Reader::to_folder) is lexical only. Trusted base: ' + TRUSTED,
+   design='5/C29'),
+ 'C32': dict(
+   technique='guarded-destructive-sink rule (path-sensitive dominance over exists()/--force facts) on c2patool main + must-pass-through for the re-read',
+   text=('Decides the overwrite clause: every create/replace/delete on a path derived from --output is reachable only with that path absent or --force set (or inside a directory created by this run), removals only with --force; and every successful signing path re-reads the output.'),
+   note='Undecided: validity of the signed outputs (run-time). Trusted base: ' + TRUSTED,
+   design='5/C32'),
+ 'C33': dict(
+   technique='log-site inventory folded through the manifest tolerance predicate + R-LOGGED rule under the discarding caller + guarded-effect dominance + settings field-use inventory',
+   text=('Decides that CAWG failure codes logged in sdk/src/identity are either tolerated by the manifest state or reported (code-scope clause), that every Err exit of the identity validation chain logs a status because CawgValidator discards the error, '
+         'that cawg success codes need the signature verification Ok edge, and that CAWG trust material is read from settings.cawg_trust.* only.'),
+   note='Undecided: the cryptographic binding itself. Trusted base: ' + TRUSTED,
+   design='5/C33'),
 }
 
 NA_REASONS = {
